@@ -3,7 +3,7 @@ CONSTANTS
   ShiftStyle = "pad" LevelStyle = "match" TruncStyle = "exact" AnalyticStyle = "outer" BCubic = "plus"
   Sizes = {302, 402}
   Cells = {23}
-  Halos = {0}
+  Halos = {0, 1, 3}
   ModeSet = {202, 402, 1212}
   NZs = {3}
   LevelLists = "single"
@@ -19,4 +19,6 @@ INVARIANT TranslateSource
 INVARIANT TranslateTower
 INVARIANT PointReflect
 INVARIANT Recentre
+INVARIANT TranslateTowerIn
+INVARIANT PointReflectIn
 INVARIANT Emit
